@@ -52,6 +52,7 @@ pub mod tokio {
         }
     }
 }
+//@once block_on
 pub uninterp spec fn drove() -> (int, int);
 use tokio::task::{JoinHandle, LocalSet};
 
